@@ -433,6 +433,9 @@ def run_whatshap(
 
         families, family_trios = setup_families(samples, ped, max_coverage)
         del samples
+        vcf_reader.samples_of_interest = {
+            sample for family in families.values() for sample in family
+        }
         for trios in family_trios.values():
             for trio in trios:
                 # Ensure that all mentioned individuals have a numeric id
